@@ -2790,3 +2790,17 @@ V(id='c24-eulerpoly-loop-cap-dropped', prop='C24', file='mpmath/functions/zeta.p
 V(id='c24-polyexp-no-factorial-decay', prop='C24', file='mpmath/functions/functions.py',
   old="            k += 1\n            t = t*x/k\n    return ctx.sum_accurately(_terms, check_step=4)", new="            k += 1\n            t = t*x\n    return ctx.sum_accurately(_terms, check_step=4)",
   expect='fire:T-R14:_polyexp')
+
+# ---- C16 third hunt: F-R13 exact rational operands (fix 1f12bfd) ----
+V(id='c16-rational-operand-widened', prop='C16', file='mpmath/ctx_iv.py',
+  old="        pq = s._rational(t)\n        if pq is not None:\n            # An exact rational p/q is not widened to an enclosure: the\n            # interval is scaled by q (exactly) and compared with p\n            p = from_int(pq[0])\n            return cmpfun(s._scaled(pq[1]), (p, p))\n", new="",
+  expect='fire:F-R13:_compare')
+V(id='c16-rational-scaling-rounded', prop='C16', file='mpmath/ctx_iv.py',
+  old="        return libmp.mpf_mul(a, q), libmp.mpf_mul(b, q)\n", new="        return libmp.mpf_mul(a, q, 53, round_floor), libmp.mpf_mul(b, q, 53, round_ceiling)\n",
+  expect='fire:F-R13:_scaled')
+V(id='c16-rational-compare-reversed', prop='C16', file='mpmath/ctx_iv.py',
+  old="            return cmpfun(s._scaled(pq[1]), (p, p))\n", new="            return cmpfun((p, p), s._scaled(pq[1]))\n",
+  expect='fire:F-R13:_compare')
+V(id='c16-rational-membership-one-sided', prop='C16', file='mpmath/ctx_iv.py',
+  old="            return mpf_le(a, p) and mpf_le(p, b)\n", new="            return mpf_le(a, p)\n",
+  expect='fire:F-R13:__contains__')
